@@ -58,6 +58,11 @@ func resetTimers() {
 //go:norace
 func timersPending() bool { return len(timerList) > 0 }
 
+// TimersArmed: has the library timers armed right now (in a simulated run)?
+//
+//go:norace
+func TimersArmed() bool { return R.active && R.quiet == 0 && len(timerList) > 0 }
+
 //go:norace
 func addTimer(d time.Duration, kind int, ch chan time.Time, f func(), period time.Duration) *timerEnt {
 	if d < 0 {
